@@ -4,8 +4,12 @@
 //     of several requests per connection and with chunked request bodies.
 // Every request gets a unique id.  Events (one ndjson line each, appended under a lock):
 //   send   {id, conn, seq, req descriptor, resp descriptor, target bytes, body hashes as 16-bit limbs}
-//   handle {id, view: what the handler observed}
-//   recv   {id, view: what the client observed}
+//   handle {id, ms, view: what the handler observed}
+//   recv   {id, ms, view: what the client observed}
+// ms = wall milliseconds (monotonic clock) from just before the client's first byte of the exchange - on a raw kept-alive
+// connection from just before its connect(), because HttpServer bounds the life of a connection, not of an exchange - until
+// the client holds the whole response (or gave up); an exchange with ms >= C10_SLOW_MS may have run into the library's own
+// time limits: the specification does not constrain its views and the raw client abandons the connection after it.
 // spec/Trace_HttpExchange.tla checks handle.view = HandlerView(req), recv.view = ClientView(resp), the target bytes,
 // exactly-once handling and per-connection order.
 #include "c10_common.h"
@@ -157,7 +161,7 @@ static vj::Value caseValue(const Desc& d)
 	return vj::parse(s);
 }
 
-static void logHandle(long id, const Observed& o, const Desc& d)
+static void logHandle(long id, long ms, const Observed& o, const Desc& d)
 {
 	std::vector<std::pair<std::string, std::string> > q(o.query.begin(), o.query.end()), h;
 	for (size_t i = 0; i < d.headers.size(); i++)
@@ -165,13 +169,13 @@ static void logHandle(long id, const Observed& o, const Desc& d)
 		std::map<std::string, std::string>::const_iterator it = o.headers.find(d.headers[i].first);
 		h.push_back(std::make_pair(d.headers[i].first, it == o.headers.end() ? std::string("\x01MISSING") : it->second));
 	}
-	logLine("{\"e\":\"handle\"," + kv("id", id) + "," + kv("times", o.times) + ",\"view\":{\"method\":" + vj::quote(o.method) + ",\"path\":" + vj::codes(o.path) +
+	logLine("{\"e\":\"handle\"," + kv("ms", ms) + "," + kv("id", id) + "," + kv("times", o.times) + ",\"view\":{\"method\":" + vj::quote(o.method) + ",\"path\":" + vj::codes(o.path) +
 	        ",\"query\":" + pairsJson(q) + ",\"headers\":" + pairsJson(h) + "," + kv("blen", o.blen) + ",\"bh\":" + limbs(o.bhash) + "}}");
 }
 
-static void logRecv(long id, int code, const std::vector<std::pair<std::string, std::string> >& hs, long blen, unsigned long long bh)
+static void logRecv(long id, long ms, int code, const std::vector<std::pair<std::string, std::string> >& hs, long blen, unsigned long long bh)
 {
-	logLine("{\"e\":\"recv\"," + kv("id", id) + ",\"view\":{" + kv("code", code) + ",\"headers\":" + pairsJson(hs) + "," + kv("blen", blen) + ",\"bh\":" + limbs(bh) + "}}");
+	logLine("{\"e\":\"recv\"," + kv("ms", ms) + "," + kv("id", id) + ",\"view\":{" + kv("code", code) + ",\"headers\":" + pairsJson(hs) + "," + kv("blen", blen) + ",\"bh\":" + limbs(bh) + "}}");
 }
 
 static long g_nextId = 1;
@@ -197,12 +201,14 @@ static void* libClient(void* p)
 		req.setHeader("X-Case", String((int)d.id));
 		for (size_t i = 0; i < d.headers.size(); i++) req.setHeader(d.headers[i].first.c_str(), d.headers[i].second.c_str());
 		if (d.blen > 0) req.put(makeBody(d.blen, d.bseed));
+		long t0 = monoMs();
 		HttpResponse res = Http::request(req);
+		long ms = monoMs() - t0;
 		pthread_mutex_lock(&g_mu);
 		Observed o = g_cases[d.id].obs;
 		g_cases.erase(d.id);
 		pthread_mutex_unlock(&g_mu);
-		logHandle(d.id, o, d);
+		logHandle(d.id, ms, o, d);
 		std::vector<std::pair<std::string, std::string> > hs;
 		for (size_t i = 0; i < d.rheaders.size(); i++)
 		{
@@ -210,7 +216,7 @@ static void* libClient(void* p)
 			String a = res.header(name.c_str()), l = res.header(lower(name).c_str());
 			hs.push_back(std::make_pair(name, a == l ? stdstr(a) : std::string("\x01MISMATCH")));
 		}
-		logRecv(d.id, res.code(), hs, res.body().length(), fnv64((const unsigned char*)res.body().data(), (size_t)res.body().length()));
+		logRecv(d.id, ms, res.code(), hs, res.body().length(), fnv64((const unsigned char*)res.body().data(), (size_t)res.body().length()));
 	}
 	return 0;
 }
@@ -220,13 +226,16 @@ static bool sendFragmented(int fd, const std::string& data, Rng& r)
 {
 	size_t p = 0;
 	int mode = r.below(4); // 0 whole, 1 tiny fragments at the start, 2 random fragments, 3 byte-wise for the head
+	size_t stallAt = stallNow() ? data.size() / 2 : std::string::npos; // (demonstration only: an 11 s pause inside the request)
 	while (p < data.size())
 	{
+		if (p == stallAt) { usleep(11000000); stallAt = std::string::npos; }
 		size_t n = data.size() - p;
 		if (mode == 1 && p < 200) n = (size_t)r.range(1, 7);
 		else if (mode == 2) n = (size_t)r.range(1, 5000);
 		else if (mode == 3 && p < 120) n = 1;
 		if (n > data.size() - p) n = data.size() - p;
+		if (p < stallAt && stallAt != std::string::npos && n > stallAt - p) n = stallAt - p;
 		ssize_t w = send(fd, data.data() + p, n, MSG_NOSIGNAL);
 		if (w <= 0) return false;
 		p += (size_t)w;
@@ -235,6 +244,9 @@ static bool sendFragmented(int fd, const std::string& data, Rng& r)
 	return true;
 }
 
+// How long the raw client waits for input before it gives up.  poll() returns as soon as data or the end of the stream arrives,
+// so this only bounds a silent peer; it is far above the library's own limits (5 s / 10 s) so that it is never the first to fire.
+static const int RAW_WAIT_MS = 120000;
 static bool readN(int fd, std::string& buf, size_t want, int timeoutMs)
 {
 	while (buf.size() < want)
@@ -263,6 +275,7 @@ static void* rawClient(void* p)
 		a.sin_family = AF_INET;
 		a.sin_port = htons((unsigned short)g_port);
 		a.sin_addr.s_addr = htonl(INADDR_LOOPBACK);
+		long t0 = monoMs(); // (the server counts the 10 s it grants a connection from its accept, which is not before this)
 		if (connect(fd, (struct sockaddr*)&a, sizeof a) != 0) { close(fd); continue; }
 		int nreq = r.range(1, 5);
 		std::string inbuf;
@@ -319,7 +332,7 @@ static void* rawClient(void* p)
 			{
 				size_t hend;
 				while ((hend = inbuf.find("\r\n\r\n")) == std::string::npos)
-					if (!readN(fd, inbuf, inbuf.size() + 1, 15000)) break;
+					if (!readN(fd, inbuf, inbuf.size() + 1, RAW_WAIT_MS)) break;
 				if (hend != std::string::npos)
 				{
 					std::string head = inbuf.substr(0, hend);
@@ -344,7 +357,7 @@ static void* rawClient(void* p)
 					if (hm.count("content-length")) clen = atol(hm["content-length"].c_str());
 					for (size_t i = 0; i < d.rheaders.size(); i++)
 						hs.push_back(std::make_pair(d.rheaders[i].first, hm.count(lower(d.rheaders[i].first)) ? hm[lower(d.rheaders[i].first)] : std::string("\x01MISSING")));
-					if (clen >= 0 && readN(fd, inbuf, (size_t)clen, 15000))
+					if (clen >= 0 && readN(fd, inbuf, (size_t)clen, RAW_WAIT_MS))
 					{
 						rbody = inbuf.substr(0, (size_t)clen);
 						inbuf.erase(0, (size_t)clen);
@@ -356,9 +369,11 @@ static void* rawClient(void* p)
 			Observed o = g_cases[d.id].obs;
 			g_cases.erase(d.id);
 			pthread_mutex_unlock(&g_mu);
-			logHandle(d.id, o, d);
-			logRecv(d.id, okResp ? code : -1, hs, okResp ? (long)rbody.size() : -1, fnv64((const unsigned char*)rbody.data(), rbody.size()));
+			long ms = monoMs() - t0;
+			logHandle(d.id, ms, o, d);
+			logRecv(d.id, ms, okResp ? code : -1, hs, okResp ? (long)rbody.size() : -1, fnv64((const unsigned char*)rbody.data(), rbody.size()));
 			if (!okResp) break;
+			if (ms >= C10_SLOW_MS) break; // what the server still does with this connection is uncertain: abandon it
 		}
 		close(fd);
 	}
@@ -370,6 +385,7 @@ int main(int argc, char** argv)
 	Args args(argc, argv);
 	Rng rng(args.seed);
 	signal(SIGPIPE, SIG_IGN);
+	g_stallOn = true;
 	Log log(args.out);
 	g_log = &log;
 	ensureServer((unsigned)args.seed);
